@@ -101,20 +101,30 @@ mod __verif_c36 {
 
     // @harness tiers=quick,thorough timeout=900
     // @encodes physical::operators::filter::classify_like, physical::operators::filter::LikeKind::matches
-    // @bounds constant-pattern fast path: text of length 0..=2, pattern of length 0..=2 (All / Exact / Prefix / Suffix / Contains / General shapes all reachable)
+    // @bounds constant-pattern fast path (what the interpreter runs per batch for `col LIKE 'const'`): text of length 0..=1, pattern of length 0..=2; All / Exact / Prefix / Suffix / General shapes reachable
     // @oracle the classified matcher returns the textbook LIKE result (so the fast path is indistinguishable from the general matcher)
-    // @unwindset TwoWaySearcher:4 small_slice_eq:4 ceil_char_boundary:4 maximal_suffix:4 filter::like_match:6
+    // @unwindset memchr::memchr_naive#0:4 memcmp#0:4 __verif_c36::gen#0:4 __verif_c36::like_ref#0:4 __verif_c36::like_ref#1:4 filter::like_match#0:8
     #[kani::proof]
-    #[kani::unwind(6)]
-    fn like_fast_path_up_to_2x2() {
+    #[kani::unwind(2)]
+    fn like_fast_path_short_texts() {
         fast(0, 0);
         fast(1, 1);
-        fast(2, 1);
         fast(1, 2);
-        fast(2, 2);
     }
 
     // @harness tiers=thorough timeout=2400
+    // @encodes physical::operators::filter::classify_like, physical::operators::filter::LikeKind::matches
+    // @bounds fast path with text of length 2 against patterns of length 1 and 2 (Contains `%a%` is not reachable below pattern length 3; `%%`, `a%`, `%a`, `_a` ... are)
+    // @oracle as like_fast_path_short_texts
+    // @unwindset memchr::memchr_naive#0:4 memcmp#0:4 __verif_c36::gen#0:4 __verif_c36::like_ref#0:4 __verif_c36::like_ref#1:4 filter::like_match#0:8
+    #[kani::proof]
+    #[kani::unwind(2)]
+    fn like_fast_path_up_to_2x2() {
+        fast(2, 1);
+        fast(2, 2);
+    }
+
+    // @harness tiers=experimental timeout=2400
     // @encodes physical::operators::filter::like_match, physical::operators::filter::classify_like, physical::operators::filter::LikeKind::matches
     // @bounds general matcher: patterns of length 3 against texts of length 0..=2; fast path: text 3 x pattern 3
     // @oracle as above
